@@ -281,10 +281,19 @@ def _bad(op: OpCall):
     raise Raised(f"{op!r}: negative count (ArgumentOutOfRangeException at run time)")
 
 
+ELEMENT_BASE = 1000     # elements are 1000 + position: a pipeline that confuses an element with its index selects the wrong ones
+
+
 def evaluate(p: Pipeline, n: int) -> list:
-    xs = list(range(n))
+    """Positions (0-based) of the elements of an n-element source that the pipeline lets through, in order."""
+    xs = [ELEMENT_BASE + i for i in range(n)]
     for op in p.ops:
         if not isinstance(op, OpCall):
             raise AnalysisError("pipeline element is not an operator application")
         xs = apply_op(op, xs)
-    return xs
+    out = []
+    for v in xs:
+        if not (isinstance(v, int) and ELEMENT_BASE <= v < ELEMENT_BASE + n):
+            raise Raised(f"the pipeline emits {v!r}, which is not an element of the source")
+        out.append(v - ELEMENT_BASE)
+    return out
